@@ -471,7 +471,7 @@ func (x *runner) limitWorld(e *env, w *ref.World) {
 
 func Run(o *core.Options) int {
 	r := core.NewReport(o, "exploration",
-		"every model of the bounded family (one per r0-signature class, every stride-th class in quick) x every tuple subset of size<=2 of the model's pool x subjects {user:a, user:*, group:1#member, doc:2#r1, doc:1#r0} x request contexts {none,x=1,x=20} x targets {doc r0, doc r1, group member} x engines {classic, weighted reverse expansion, pipeline} x {ListObjects, StreamedListObjects}; plus max-results {1,2} on a 3-doc universe; plus cancellation of the request at its k-th datastore read for every k; oracle = independent 3-valued least-fixpoint reference; non-trivial = reference answer set non-empty or some object unevaluable; distinct by (model,tuples,universe,subject,context,type,relation)")
+		"every model of the bounded family (one per r0-signature class, every stride-th class in quick) x every tuple subset of size<=2 of the model's pool x subjects {user:a, user:*, group:1#member, doc:2#r1, doc:1#r0} x request contexts {none,x=1,x=20} x targets {doc r0, doc r1, group member} x engines {classic, weighted reverse expansion, pipeline} x {ListObjects, StreamedListObjects}; plus the n-ary family (r0 = one union / intersection node with 3-4 operands in every order over three documents, <=5 tuples); plus max-results {1,2} on a 3-doc universe; plus cancellation of the request at its k-th datastore read for every k; oracle = independent 3-valued least-fixpoint reference; non-trivial = reference answer set non-empty or some object unevaluable; distinct by (model,tuples,universe,subject,context,type,relation)")
 	r.Assume("memory datastore behind a read-counting wrapper; one datastore shared by the engine configurations of a world",
 		"planner strategy in further-eval Checks is the server's own (random) choice: a deviation is re-executed 5x and is a verdict only if it shows again",
 		"universe 2 users/2 groups/2 docs (3 docs in the limit sub-sweep); rewrites of depth<=1; one condition cx(x:int):=x<10",
@@ -542,6 +542,20 @@ func Run(o *core.Options) int {
 				return
 			}
 			r.Count("flat_worlds", 1)
+			x.mainWorld(e, w, false)
+		})
+	}
+
+	// n-ary union / intersection nodes over three documents (ref.NaryFamily), up to 5 tuples (6 in thorough)
+	{
+		kn := 5
+		if o.Thorough() {
+			kn = 6
+		}
+		nary := e2.ValidModels(ref.NaryFamily())
+		r.Set("nary_family_models", len(nary))
+		x.sweep("nary", nary, ref.NaryUniverse(), kn, 1, []int{0}, 0, func(e *env, w *ref.World, idx int) {
+			r.Count("nary_worlds", 1)
 			x.mainWorld(e, w, false)
 		})
 	}
